@@ -337,6 +337,19 @@ pub fn run(ctx: &mut Ctx) {
         rep.sample(|| json!({"stage":"ladder","kind":name,"depth":depth,"source":mon::clip(&src, 120),"outcome":out.show()}));
     });
 
+    // ---- cyclic references between programs, through every referencing construct ----------------
+    let ncon = crate::props::c12::CONSTRUCTS.len();
+    ctx.stage_each("program-cycles", (ncon * 4) as u64, false, |idx, _rng, rep| {
+        let con = idx as usize / 4;
+        let (n, adj) = match idx % 4 {
+            0 => (1, 0b1u32),
+            1 => (2, 0b0110),
+            2 => (3, 0b001_100_010),
+            _ => (3, 0b010_100_010), // p0 -> p1 -> p2 -> p1
+        };
+        crate::props::c12::graph_case(rep, n, adj, &[con], &format!("cycle-{}", crate::props::c12::CONSTRUCTS[con].0));
+    });
+
     // ---- random UTF-8 over a CEL-heavy alphabet ---------------------------------------------
     let nrand = ctx.n(150_000, 1_500_000);
     ctx.stage("random-utf8", nrand, true, |_idx, rng, rep| {
